@@ -656,12 +656,36 @@ def unsat_programs(tier, rnd):
     return out
 
 
+def sum_edge_programs(tier, rnd):
+    """satisfiability decided by the width of list.sum / product"""
+    out = []
+    for n in (2, 3, 5, 6):
+        for ety, lo, tw in ((("u", 8), 200, 8), (("u", 4), 12, 4), (("s", 8), 100, 8), (("u", 8), 250, 9)):
+            lf = [["l", "list", list(ety), n, True, False], fld("t", ("u" if ety[0] == "u" else "s", tw))]
+            st = [["foreach", ["l"], "i", [E([">=", ["it", "i"], lit(lo)])]], E(["==", ["sum", ["l"]], F("t")])]
+            out.append({"tag": "sum_edge", "desc": "%d x %s%d elements >= %d, sum == t(%d bit)" % (n, ety[0], ety[1], lo, tw),
+                        "prog": one_class(lf, st), "world": [["top", "obj", "Top"]], "ops": [["randomize", ["top"]], ["randomize", ["top"]]]})
+            st2 = [["foreach", ["l"], "i", [E([">=", ["it", "i"], lit(lo)])]], E(["<", ["sum", ["l"]], F("t")])]
+            out.append({"tag": "sum_edge", "desc": "%d x %s%d elements >= %d, sum < t(%d bit)" % (n, ety[0], ety[1], lo, tw),
+                        "prog": one_class(lf, st2), "world": [["top", "obj", "Top"]], "ops": [["randomize", ["top"]]]})
+    # a failing call, then the list shrinks, then a call that must succeed again
+    lf = [["l", "list", ["u", 8], 6, True, False]]
+    st = [["foreach", ["l"], "i", [E(["<", ["it", "i"], lit(4)]), ["if", [[[">", ["idx", "i"], lit(0)], [E([">", ["it", "i"], F("l", ["idx", "i", -1])])]]], None]]]]
+    out.append({"tag": "fail_history", "desc": "strictly increasing list < 4: fails at 6 elements, succeeds after shrinking to 3", "prog": one_class(lf, st),
+                "world": [["top", "obj", "Top"]], "ops": [["randomize", ["top"]], ["list_assign", ["top", "l"], [0, 0, 0]], ["randomize", ["top"]],
+                                                          ["list_append", ["top", "l"], 0], ["randomize", ["top"]], ["list_append", ["top", "l"], 0], ["randomize", ["top"]],
+                                                          ["list_assign", ["top", "l"], [9, 9]], ["randomize", ["top"]]]})
+    return out
+
+
 def c02_programs(tier, sd):
     rnd = random.Random(sd)
     base = atomic_programs(tier, rnd) + statement_programs(tier, rnd)
     if tier == "quick":
         base = [s for i, s in enumerate(base) if s["tag"] != "atomic" or i % 3 == 0]
-    return constfold_programs(tier, rnd) + unsat_programs(tier, rnd) + base + structure_programs(tier, rnd) + rangelist_history_programs(tier, rnd) + \
+    extra = [p for p in c03_programs(tier, sd) if p["tag"] == "history_fail"][::(1 if tier == "thorough" else 4)] + \
+        [p for p in c06_programs(tier, sd) if p["tag"] == "inline_fail"]
+    return constfold_programs(tier, rnd) + unsat_programs(tier, rnd) + sum_edge_programs(tier, rnd) + extra + base + structure_programs(tier, rnd) + rangelist_history_programs(tier, rnd) + \
         random_programs(random.Random(sd + 1), 1500 if tier == "thorough" else 150)
 
 
@@ -896,8 +920,24 @@ def c07_programs(tier, sd):
             "blocks": [["cb", "c", [E(["==", b, lit(3)])]], ["ca", "c", [E(["in", a, [["rng", lit(20), lit(30)]]])]]]}
     Hold = {"name": "Hold", "fields": [["s1", "obj", "Leaf", True], ["s2", "obj", "Leaf", True], ["l", "list", ["obj", "Mid"], 2, True, False], fld("k", ("u", 8))],
             "blocks": [["hk", "c", [E(["<", F("k"), F("s1", "a")])]]]}
+    Hold["blocks"].append(["hf", "c", [["foreach", ["l"], "i", [E(["<", ["it", "i", "c"], lit(-5)])]]]])
     pr = {"enums": {}, "classes": [Base, Mid, Leaf, Hold]}
     blocks = {"Base": ["ca", "cb", "cz"], "Mid": ["ca", "cb", "cz", "cd"], "Leaf": ["ca", "cb", "cz", "cd"]}
+    # two distinct classes that share their __qualname__ (made by one factory) but not their block sets
+    FA = {"name": "FA", "base": "Base", "factory": "lim", "fields": [fld("d", ("u", 8))], "blocks": [["cx", "c", [E(["==", F("d"), lit(1)])]]]}
+    FB = {"name": "FB", "base": "Mid", "factory": "lim", "fields": [fld("e", ("u", 8))], "blocks": [["cy", "c", [E(["==", F("e"), lit(2)])]], ["ca", "c", [E(["==", a, lit(200)])]]]}
+    prf = {"enums": {}, "classes": [Base, Mid, FA, FB]}
+    for first, second in (("FA", "FB"), ("FB", "FA")):
+        out.append({"tag": "same_qualname", "desc": "classes sharing a qualname, %s instantiated first" % first, "prog": prf,
+                    "world": [["o1", "obj", first], ["top", "obj", second]],
+                    "ops": [["randomize", ["top"]], ["randomize", ["o1"]], ["cmode", ["top"], "ca", False], ["randomize", ["top"]], ["randomize", ["o1"]]]})
+    # a block with a foreach is switched off, calls happen, the list grows, the block is switched on again
+    for calls_off in (1, 2):
+        out.append({"tag": "cmode_foreach", "desc": "foreach block off, %d call(s), list grows, on again" % calls_off, "prog": pr,
+                    "world": [["h", "obj", "Hold"]],
+                    "ops": [["randomize", ["h"]], ["cmode", ["h"], "hf", False]] + [["randomize", ["h"]]] * calls_off +
+                           [["list_append", ["h", "l"], 0], ["randomize", ["h"]], ["cmode", ["h"], "hf", True], ["randomize", ["h"]], ["randomize", ["h"]],
+                            ["cmode", ["h"], "hf", False], ["list_append", ["h", "l"], 0], ["cmode", ["h"], "hf", True], ["randomize", ["h"]]]})
     # single instances of each class: every single toggle, then toggle sequences
     for cls in ("Base", "Mid", "Leaf"):
         for bn in blocks[cls]:
